@@ -42,3 +42,26 @@ func VerifH_leasetime4() {
 	}
 	vnd.Observe("lease", got)
 }
+
+// VerifH_leasetime_setup: through the real setup4, the option carries the
+// whole seconds of the configured duration (the wire encoding truncates).
+func VerifH_leasetime_setup() {
+	cases := []struct {
+		arg  string
+		secs uint32
+	}{{"3600s", 3600}, {"1h30m", 5400}, {"1500ms", 1}, {"500ms", 0}, {"1h0m0.75s", 3600}, {"2.499s", 2}, {"59.999s", 59}}
+	c := cases[vnd.Pick("case", 0, len(cases)-1)]
+	h, err := setup4(c.arg)
+	vnd.Assert(err == nil && h != nil, "C17 leasetime accepts a duration")
+	if err != nil || h == nil {
+		return
+	}
+	req := vh.Req4()
+	resp, _, _ := vh.Resp4(req, uint8(dhcpv4.OptionIPAddressLeaseTime))
+	r, stop := h(req, resp)
+	vnd.Cover("served")
+	vnd.Assert(r == resp && !stop, "C17 leasetime passes the response on")
+	got := resp.Options[uint8(dhcpv4.OptionIPAddressLeaseTime)]
+	want := []byte{byte(c.secs >> 24), byte(c.secs >> 16), byte(c.secs >> 8), byte(c.secs)}
+	vnd.Assert(vh.BytesAre(got, want), "C17 leasetime emits the whole seconds of the configured duration")
+}
